@@ -11,6 +11,13 @@ BAD_CID_FORMS = ["short", "long", "nonhex", "empty", "nontext", "space"]
 MAX = 100 * 1024 * 1024
 
 
+def dump_block(trace, i, d):
+    out, j = [], i + d
+    while 0 <= j < len(trace) and trace[j][0].split()[0] in ("dump", "rows"):
+        out.append(trace[j]); j += d
+    return out if d > 0 else list(reversed(out))
+
+
 class HResp:
     def __init__(self, line):
         self.line = line
@@ -261,6 +268,14 @@ def grid_requests(rng, tier, client=1):
                 keep.append(f"http POST av hyph=latest:{client} hyph={client} {ct} {body}")
                 keep.append(f"http POST as hyph=latest:{client} hyph={client} {ct} {body}")
         reqs = keep
+    # refused requests of a client the server has never seen (nothing may be created for it)
+    for body in ("e", "e1"):
+        reqs += [f"http POST av hyph=nil hyph=fresh history {body}", f"http POST as hyph=nil hyph=fresh snapshot {body}",
+                 f"http POST av hyph=fresh hyph=fresh history-param {body}"]
+    for ct in ("other", "absent", "snapshot", "empty"):
+        reqs += [f"http POST av hyph=nil hyph=fresh {ct} b:5", f"http POST av short=nil hyph=fresh {ct} b:5"]
+    reqs += ["http GET gcv hyph=nil hyph=fresh absent e", "http GET snap - hyph=fresh absent e",
+             "http POST as hyph=nil hyph=fresh snapshot b:5", "http PUT av hyph=nil hyph=fresh history b:5"]
     return reqs
 
 
@@ -304,6 +319,10 @@ class C15(HttpProp):
             ops = ["http POST av hyph=nil hyph=1 history b:1", "dumpall",
                    f"http POST {route} hyph=latest:1 hyph=1 {ct} big:{n}:{kchunks}", "dumpall"]
             out.append(Case(f"c15-big-{j}", ops, {"big": n}, mode="http"))
+            if n > MAX:
+                ops2 = ["http POST av hyph=nil hyph=1 history b:1", "dumpall", "rows",
+                        f"http POST {route} hyph=nil hyph=fresh {ct} big:{n}:{kchunks}", "dumpall", "rows"]
+                out.append(Case(f"c15-bigfresh-{j}", ops2, {"big": n}, mode="http"))
         return out
     def relevant(self, i, trace):
         o, ri, rm = trace[i]
@@ -339,8 +358,9 @@ class C15(HttpProp):
                 for c in before:
                     if c in after and before[c].ok and after[c].ok and before[c].key(False) != after[c].key(False, before[c].by_id.keys()):
                         fails.append(f"op {i} `{o}`: refused with {r.status} but client {c} changed")
-                if set(after) - set(before):
-                    pass
+                for c in set(after) - set(before):
+                    if after[c].ok and not after[c].absent:
+                        fails.append(f"op {i} `{o}`: refused with {r.status} but a client record now exists for the never-seen client {c}")
                 rb = [x[1] for x in self._blk(trace, i, -1) if x[0] == "rows"]
                 ra = [x[1] for x in self._blk(trace, i, +1) if x[0] == "rows"]
                 if rb and ra and rb[-1] != ra[0] and not rb[-1].startswith("rows na"):
@@ -350,6 +370,8 @@ class C15(HttpProp):
                     fails.append(f"op {i} `{o}`: a well-formed request with a body within the limit was refused 400")
         return fails
     def _blk(self, trace, i, d):
+        return dump_block(trace, i, d)
+    def _blk_old(self, trace, i, d):
         out, j = [], i + d
         while 0 <= j < len(trace) and trace[j][0].split()[0] in ("dump", "rows"):
             out.append(trace[j]); j += d
@@ -460,8 +482,8 @@ class C16(HttpProp):
                     fails.append(f"op {i} `{o}`: request of an unlisted client made storage calls {r.calls[:6]}")
                 if not (400 <= r.status < 500):
                     fails.append(f"op {i} `{o}`: unlisted client answered {r.status}")
-                b = {x[0].split()[1]: Dump(x[1]) for x in C15._blk(self, trace, i, -1) if x[0].startswith("dump ")}
-                a2 = {x[0].split()[1]: Dump(x[1]) for x in C15._blk(self, trace, i, +1) if x[0].startswith("dump ")}
+                b = {x[0].split()[1]: Dump(x[1]) for x in dump_block(trace, i, -1) if x[0].startswith("dump ")}
+                a2 = {x[0].split()[1]: Dump(x[1]) for x in dump_block(trace, i, +1) if x[0].startswith("dump ")}
                 for c in b:
                     if c in a2 and b[c].ok and a2[c].ok and b[c].key(False) != a2[c].key(False, b[c].by_id.keys()):
                         fails.append(f"op {i} `{o}`: request of an unlisted client changed client {c}")
@@ -619,3 +641,56 @@ class C06(HttpProp):
 ALL = {}
 for cls in (C06, C14, C15, C16, C20):
     ALL[cls.id] = cls
+
+
+def refusal_cases(rng, n=6):
+    """HTTP requests with a non-mutating outcome (refusals of every class, reads, conflicts), also from
+    clients the server has never seen, each between complete dumps + raw rows (used by C18)"""
+    reqs = ["http POST av hyph=nil hyph=fresh history e", "http POST av hyph=nil hyph=fresh other b:5",
+            "http POST as hyph=nil hyph=fresh snapshot e", "http POST as hyph=nil hyph=fresh snapshot b:5",
+            "http GET gcv hyph=nil hyph=fresh absent e", "http GET snap - hyph=fresh absent e",
+            "http POST av hyph=nil hyph=1 history b:6", "http POST av short=latest:1 hyph=1 history b:6",
+            "http POST av hyph=latest:1 nonhex=1 history b:6", "http POST av hyph=latest:1 absent history b:6",
+            "http POST as hyph=nil hyph=1 snapshot b:6", "http POST as hyph=fresh hyph=1 snapshot b:6",
+            "http GET gcv hyph=latest:1 hyph=1 absent e", "http GET gcv hyph=nil hyph=1 absent e", "http GET gcv hyph=fresh hyph=2 absent e",
+            "http GET snap - hyph=1 absent e", "http GET snap - hyph=2 absent e", "http PUT av hyph=latest:1 hyph=1 history b:6",
+            "http GET unknown1 - hyph=1 absent e", "http POST av hyph=latest:1 hyph=1 history-upper b:6"]
+    out = []
+    for k in range(n):
+        r = random.Random(rng.getrandbits(32))
+        ops = state_prefix(r, (1, 2))
+        sel = r.sample(reqs, 10)
+        for q in sel:
+            ops += ["dumpall", "rows", q, "dumpall", "rows"]
+        out.append(Case(f"c18-http-{k}", ops, {"http_refusals": True}, mode="http"))
+    return out
+
+
+def refusal_oracle(case, trace, backend):
+    fails = []
+    blk = lambda i, d: dump_block(trace, i, d)
+    for i, (o, ri, rm) in enumerate(trace):
+        if not o.startswith("http "):
+            continue
+        h, r = HOp(o), HResp(ri)
+        mutating = r.status == 200 and h.route in ("av", "as")
+        # an accepted AddSnapshot answers 200 as well as a declined one: only declined ones are listed in these cases
+        if h.route == "as" and r.status == 200:
+            mutating = not (h.seg == "0" or not h.valid())
+            if h.seg != "0":
+                continue
+        if mutating:
+            continue
+        before = {x[0].split()[1]: Dump(x[1]) for x in blk(i, -1) if x[0].startswith("dump ")}
+        after = {x[0].split()[1]: Dump(x[1]) for x in blk(i, +1) if x[0].startswith("dump ")}
+        for c in before:
+            if c in after and before[c].ok and after[c].ok and before[c].key(False) != after[c].key(False, before[c].by_id.keys()):
+                fails.append(f"op {i} `{o}` answered {r.status} (non-mutating) but client {c} changed")
+        for c in set(after) - set(before):
+            if after[c].ok and not after[c].absent:
+                fails.append(f"op {i} `{o}` answered {r.status} (non-mutating) but a client record now exists for client {c}")
+        rb = [x[1] for x in blk(i, -1) if x[0] == "rows"]
+        ra = [x[1] for x in blk(i, +1) if x[0] == "rows"]
+        if rb and ra and rb[-1] != ra[0] and not rb[-1].startswith("rows na"):
+            fails.append(f"op {i} `{o}` answered {r.status} (non-mutating) but the raw rows changed")
+    return fails
